@@ -609,6 +609,8 @@ class Driver:
             return [(s, s.env[node.id])]
         if node.id in ("np", "field", "math", "sys", "time"):
             return [(s, Opq("mod:" + node.id))]
+        if node.id in func.module.imports:
+            return [(s, Opq("mod:" + func.module.imports[node.id]))]
         if node.id in ("len", "min", "max", "print", "any", "all", "range", "zip", "isinstance", "float", "int", "abs", "hasattr", "list", "tuple", "sorted", "enumerate", "dict", "str", "repr", "callable", "set", "frozenset", "round"):
             return [(s, Opq("builtin:" + node.id))]
         if node.id in func.module.assigns or node.id in func.module.functions or node.id in func.module.classes or node.id in func.module.from_imports:
@@ -1022,6 +1024,16 @@ class Driver:
         if n.startswith("self.") and n.count(".") == 2 and n.split(".")[-1] in self.MUTATORS:
             # a container the solver object keeps between calls is changed in place
             s.events.append(("self-mutated", n.split(".")[1], n.split(".")[2], ln, list(args) + list(kw.values())))
+        if n in ("mod:copy.copy", "mod:copy.deepcopy") and len(args) == 1 and isinstance(args[0], FieldObj):
+            o = args[0]
+            c = FieldObj("%s of #%d" % (n[4:], o.id), o.time, o.it)
+            c.copy_of = (o.id, len(o.steps))
+            s.heap[c.id] = c
+            s.events.append(("copy", o.id, c.id, ln))
+            if n == "mod:copy.copy":
+                # a SHALLOW copy: a new field object whose `data` list is the original's -- add_res updates those arrays in place
+                s.events.append(("shallow-copy", o.id, c.id, ln))
+            return [(s, c)]
         if n == "builtin:len":
             a = args[0]
             if isinstance(a, SeqSym):
